@@ -132,6 +132,7 @@ def check(ctx, report):
             report.add('C11.R3', ct.construct + '@epoch', problem)
     # ---- R4 / R5: flags and timestamps, tabulated (statements of the four primitives evaluated by sa.miniexec)
     flags_and_timestamps(ctx, report)
+    masked_writes(ctx, report)
     report.rule('C11.R6', 'SSH mpint composer and parser tabulated against RFC 4251 over boundary bit lengths, both signs')
     mpint_pipeline(ctx, report)
     report.floor('C11.R1', 8, 'table/padding obligations')
@@ -352,17 +353,19 @@ def run_with_attrs(ev, node):
     return Evaluator.function(ev, node)
 
 
-def parse_mpint_by_ast(pb, data, method='parse_ssh_mpint', extra=None):
+def parse_mpint_by_ast(pb, data, method='parse_ssh_mpint', extra=None, prefix=b''):
     """value parse_ssh_mpint stores for the encoding ``data`` (length prefix included)"""
     from ..miniexec import Evaluator, Stop, Unsupported
     outer, inner = pb.methods[method], pb.methods['_parse_mpint']
     state = {'value': None, 'advance': None}
 
+    whole = bytes(prefix) + bytes(data)
+
     def attr_hook(name):
         if name == 'self._parsable':
-            return bytes(data)
+            return whole
         if name == 'self._parsed_length':
-            return 0
+            return len(prefix)
         if name == 'self.unparsed_length':
             return len(data)
         if name == 'int':
@@ -459,6 +462,14 @@ def mpint_pipeline(ctx, report, rule='C11.R6', signs=(1, -1)):
                            'the %d bit integer is composed as %s.., RFC 4251 demands the minimal form %s..' % (v.bit_length(), got.hex()[:24], want.hex()[:24]))
         try:
             pv, adv = parse_mpint_by_ast(pb, want)
+            if pv == v and adv == len(want) and abs(v).bit_length() % 7 == 3:
+                # the same encoding behind other data: every read must be relative to the cursor, not to the buffer start
+                for prefix in (b'\xff\x00\x80\x01\x7f', b'\x00\x00\x00\x00\xff\xff'):
+                    report.count(rule)
+                    pv2, adv2 = parse_mpint_by_ast(pb, want, prefix=prefix)
+                    if pv2 != v or adv2 != len(want):
+                        pv, adv = pv2, adv2
+                        break
         except Unsupported as e:
             report.add(rule, pf.construct + '@tabulation', 'the mpint parser left the integer subset the tabulation understands: %s' % e)
             return
@@ -517,6 +528,19 @@ def fixed_mpint(ctx, report, cb, pb, rule):
                         if 'InvalidValue' not in e.what:
                             report.add(rule, cf.construct + '@truncation', 'a value too wide for the field raises %s, not InvalidValue' % e.what)
                             return
+        # negative values: the fixed-length form has no sign octet, the parser reads it as unsigned
+        for v, length in ((-1, 4), (-1024, 10), (-0x7fff, 2)):
+            report.count(rule)
+            try:
+                wire = compose_mpint_by_ast(cb, v, 'compose_mpint', {'length': length})
+            except Raised:
+                continue            # refusing a negative value is a consistent answer for an unsigned field
+            pv, adv = parse_mpint_by_ast(pb, wire, 'parse_mpint', {'mpint_length': length})
+            if pv != v:
+                report.add(rule, pf.construct + '@negative-fixed',
+                           'compose_mpint(%d, %d) writes %s, which parse_mpint reads back as %s: negative fixed-length integers do not round trip' % (
+                               v, length, wire.hex(), hex(pv) if isinstance(pv, int) else pv))
+                break
     except Unsupported as e:
         report.add(rule, cf.construct + '@tabulation', 'the fixed length mpint code left the subset the tabulation understands: %s' % e)
 
@@ -594,16 +618,26 @@ def flags_and_timestamps(ctx, report):
     UTC = Obj(name='UTC')
 
     class Instant(Native):
-        def __init__(self, seconds, millis=0):
-            self.seconds, self.millis = seconds, millis
+        """an aware datetime: ``seconds`` since the epoch (UTC), shown on a wall clock ``offset`` seconds ahead of UTC"""
+
+        def __init__(self, seconds, millis=0, offset=0):
+            self.seconds, self.millis, self.offset = seconds, millis, offset
             self.microsecond = millis * 1000
-            self.tzinfo = UTC
+            self.tzinfo = UTC if offset == 0 else Obj(name='+%d' % offset)
 
         def utctimetuple(self):
             return ('utc-tuple', self.seconds)
 
+        def timetuple(self):
+            return ('utc-tuple', self.seconds + self.offset)      # wall clock fields, which timegm reads as if they were UTC
+
+        def astimezone(self, tz):
+            if tz is not UTC:
+                raise Unsupported('astimezone to something else than UTC')
+            return Instant(self.seconds, self.millis, 0)
+
         def __add__(self, other):
-            return Instant(self.seconds, self.millis + other.millis)
+            return Instant(self.seconds, self.millis + other.millis, self.offset)
 
     def hook(n, ev):
         d = ast.unparse(n.func)
@@ -630,7 +664,7 @@ def flags_and_timestamps(ctx, report):
             sentinel = (1 << (8 * size)) - 1
             for seconds, millis in ((0, 0), (1, 0), (86399, 999), (1710000000, 123), (0x7fffffff, 1), (0xfffffffe, 999)):
                 report.count('C11.R5')
-                inst = Instant(seconds, millis if ms else 0)
+                inst = Instant(seconds, millis if ms else 0, offset=(0, 7200, -19800)[(seconds + size) % 3])
                 me = State()
                 Evaluator({'self': me, 'value': inst, 'milliseconds': ms, 'item_size': size}, hook, names).function(cts.node)
                 want = seconds * 1000 + millis if ms else seconds
@@ -655,3 +689,56 @@ def flags_and_timestamps(ctx, report):
                 report.add('C11.R5', pts.construct + '@sentinel', 'the all-ones value of a %d byte field is parsed as %r, expected None' % (size, rd._parsed_values.get('t')))
     except (Unsupported, Raised) as e:
         report.add('C11.R5', cts.construct + '@tabulation', 'the timestamp primitives left the subset the tabulation understands: %s' % e)
+
+
+# ---- R7: no truncating mask in front of a width-limited write ------------------------------------------------------------
+
+def has_shift_of(v, operand_text):
+    """does the value contain ``<operand> >> k`` (the other half of a bit split)?"""
+    from ..values import Sym, show
+    if not isinstance(v, Sym):
+        return False
+    if v.op in ('rshift', 'floordiv') and operand_text in show(v.args[0]):
+        return True
+    return any(has_shift_of(a, operand_text) for a in v.args)
+
+
+def masked_writes(ctx, report):
+    """a composer that writes ``value & (2**(8w) - 1)`` (or ``value % 2**(8w)``) into a w byte field reduces an out-of-range
+    value modulo the field instead of letting the primitive refuse it. A mask is accepted when it is one half of a bit
+    split (a sibling element writes the bits the mask removes, ``(value & hi) >> s``)."""
+    from ..compare import _descendants
+    from ..values import Sym, show
+    report.rule('C11.R7', 'composers do not mask a value to the field width before writing it (truncation instead of refusal)')
+    n = 0
+    for c in ctx.model.concrete_parsables():
+        f = c.methods.get('compose')
+        if f is None:
+            continue
+        try:
+            cn = ctx.canon.canon(c, 'compose')
+        except Exception:      # pylint: disable=broad-except
+            continue
+        if cn is None:
+            continue
+        els = [e for e in _descendants(cn.elements) if e.kind == 'u' and isinstance(e.w, int)]
+        for e in els:
+            n += 1
+            v = e.val
+            full = (1 << (8 * e.w)) - 1
+            operand = None
+            if isinstance(v, Sym) and v.op == 'and' and full in v.args:
+                operand = [a for a in v.args if a != full]
+            elif isinstance(v, Sym) and v.op == 'mod' and len(v.args) == 2 and v.args[1] == full + 1:
+                operand = [v.args[0]]
+            if not operand or isinstance(operand[0], int):
+                continue
+            x = show(operand[0])
+            split = any(o is not e and has_shift_of(o.val, x) for o in els)
+            if split:
+                continue
+            report.add('C11.R7', '%s@masked[%s]' % (f.construct, x[:50]),
+                       '%s is reduced to %d byte(s) with %s before it is written: a value that does not fit is truncated instead of refused' % (
+                           x[:60], e.w, 'a mask' if v.op == 'and' else 'a modulus'))
+    report.count('C11.R7', n)
+    report.floor('C11.R7', 120, 'fixed-width integer writes')
